@@ -312,7 +312,30 @@ impl Ctx {
                 let n = self.rng.below(5) as usize;
                 let ids: Vec<u64> = (0..n).map(|_| self.fresh()).collect();
                 let pulls = self.rng.below(e.saturating_sub(s) as u64 + 2) as usize;
-                Op::Splice(s, e, ids, pulls)
+                let hint = match self.rng.below(4) {
+                    0 => 0,
+                    1 => self.rng.below(3) as usize,
+                    _ => 1_000_000,
+                };
+                // which part of `Splice::drop` this input reaches (range ok, no panicking Drop)
+                if s <= e && e <= len {
+                    let gap = e - s;
+                    let lower_after_fill = n.saturating_sub(gap).min(hint);
+                    self.count(if len == e {
+                        "splice:tail-empty(extend)"
+                    } else if n <= gap {
+                        if n == gap { "splice:fill-exact" } else { "splice:fill-short(tail moves back)" }
+                    } else if lower_after_fill == n - gap {
+                        "splice:move-tail(lower bound exact)"
+                    } else if lower_after_fill > 0 {
+                        "splice:move-tail(lower bound)+collected"
+                    } else {
+                        "splice:collected-only"
+                    });
+                } else {
+                    self.count("splice:bad-range");
+                }
+                Op::Splice(s, e, ids, pulls, hint)
             }
         };
         let _ = cap;
